@@ -278,6 +278,11 @@ func (ap *AP) S(size int, slices ...Slice) (newAP AP, ndStart, ndEnd int, err er
 		}
 	}
 
+	if ap.o.IsTransposed() {
+		// the strides of a lazily transposed tensor are permuted: no slice of it is a plain contiguous array
+		order = MakeDataOrder(order, NonContiguous)
+	}
+
 	if ndEnd-ndStart == 1 {
 		// scalars are a special case
 		newAP = AP{}
